@@ -3,9 +3,12 @@ import os
 import sys
 
 os.environ.setdefault('PYTHONHASHSEED', '0')
-# /repo's working tree is what gets explored (editable install points there as well)
-if '/repo' not in sys.path:
-    sys.path.insert(0, '/repo')
+# /repo's working tree is what gets explored (editable install points there as well).
+# VCHECK_TREE is a development aid only (a scratch checkout while /repo is busy); no
+# registered command sets it.
+_TREE = os.environ.get('VCHECK_TREE', '/repo')
+if _TREE not in sys.path:
+    sys.path.insert(0, _TREE)
 
 # the solver stand-in must be in place before chi constructs any simulation
 from .env import refsim as _refsim  # noqa: E402
